@@ -13,6 +13,7 @@ import (
 )
 
 func docOpts(c *core.Ctx) *docs.Opts {
+	docs.ExpectUntypedAdditional = !c.Avoid("addprops.untyped_collected_only_with_unmarshaler")
 	return &docs.Opts{
 		ByteSafe:         func() bool { return c.Avoid("strings.multibyte_where_bytes_differ") },
 		NoNullObjects:    func() bool { return c.Avoid("nulls.nullable_object_with_properties") },
